@@ -39,6 +39,10 @@ type c01Msg struct {
 type c01Plan struct {
 	Knobs   Knobs `json:"knobs"`
 	Logical bool  `json:"logical"`
+	// Tail (logical channel only): after the last message the logical channel is closed - its teardown is one more
+	// packet on the wire, built from a full-size packet without data - and one more message goes out on channel 0:
+	// the teardown must be a packet whose header length is its real size, or it swallows what follows.
+	Tail bool `json:"tail,omitempty"`
 	// Both: the logical channel AND channel 0 are used in the same run (per message: OnZero).
 	Both bool     `json:"both,omitempty"`
 	Msgs []c01Msg `json:"msgs"`
@@ -66,6 +70,7 @@ var c01Sizes = []int{256, 257, 511, 512, 513, 1024, 4096, 32768, 65535}
 
 func (c01) Gen(r *Rand, idx int, tier string) interface{} {
 	p := &c01Plan{Knobs: GenKnobs(r), Logical: r.Pct(50)}
+	p.Tail = p.Logical && r.Pct(30)
 	if p.Logical && r.Pct(40) {
 		p.Both = true
 	}
@@ -207,6 +212,12 @@ func (c01) Shrink(plan interface{}) []interface{} {
 	if p.Logical && !p.Both {
 		q := *p
 		q.Logical = false
+		q.Tail = false
+		out = append(out, &q)
+	}
+	if p.Tail {
+		q := *p
+		q.Tail = false
 		out = append(out, &q)
 	}
 	return out
@@ -230,6 +241,8 @@ func c01Bytes(mi, pi int, pk c01Pkg) []byte {
 	}
 	return b
 }
+
+const c01TailCmd = "select 'after the teardown'"
 
 func c01Package(mi, pi int, pk c01Pkg) tds.Package {
 	enc := c01Bytes(mi, pi, pk)
@@ -272,6 +285,9 @@ func (c01) Run(plan interface{}, schedSeed uint64, replay []simrt.Choice, lenien
 			return
 		}
 		arrivals = append(arrivals, arrival{pk, simrt.Record("c01-packet", "", "", int64(curMsg))})
+		if curMsg == len(p.Msgs) && pk.H.Type == peer.BufClose && pk.H.Channel != 0 {
+			return // the teardown of the logical channel is not answered
+		}
 		if !armed {
 			armed = true
 			mi := curMsg
@@ -294,6 +310,7 @@ func (c01) Run(plan interface{}, schedSeed uint64, replay []simrt.Choice, lenien
 	}
 	type msgMark struct{ start, end int }
 	marks := make([]msgMark, len(p.Msgs))
+	var tailMark msgMark
 	var setupErr string
 	var sendErrs, aborted []string
 	sizesSeen := make([]int, len(p.Msgs))
@@ -391,6 +408,29 @@ func (c01) Run(plan interface{}, schedSeed uint64, replay []simrt.Choice, lenien
 			}
 			simrt.Sleep(time.Millisecond)
 			marks[mi].end = simrt.Record("msg-end", "", "", int64(mi))
+		}
+		if p.Tail {
+			curMsg = len(p.Msgs)
+			tailMark.start = simrt.Record("tail-start", "", "", 0)
+			if err := chL.Close(); err != nil {
+				sendErrs = append(sendErrs, fmt.Sprintf("closing the logical channel: %v", err))
+			}
+			ch0.CurrentHeaderType = tds.TDS_BUF_NORMAL
+			if err := ch0.SendPackage(ctx, &tds.LanguagePackage{Cmd: c01TailCmd}); err != nil {
+				sendErrs = append(sendErrs, fmt.Sprintf("message after the teardown: %v", err))
+			}
+			for n := 0; n < 50; n++ {
+				pkg, err := ch0.NextPackage(ctx, true)
+				if err != nil {
+					sendErrs = append(sendErrs, fmt.Sprintf("message after the teardown: reading the answer: %v", err))
+					break
+				}
+				if d, ok := pkg.(*tds.DonePackage); ok && d.Status == tds.TDS_DONE_FINAL {
+					break
+				}
+			}
+			simrt.Sleep(time.Millisecond)
+			tailMark.end = simrt.Record("tail-end", "", "", 0)
 		}
 	})
 	StdOutcome(v, out)
@@ -512,10 +552,29 @@ func (c01) Run(plan interface{}, schedSeed uint64, replay []simrt.Choice, lenien
 			v.Probe("packet-size-change")
 		}
 	}
+	// the teardown of the logical channel and the message behind it
+	if v.Class == "" && p.Tail && tailMark.end > 0 {
+		var tail []peer.RecvPacket
+		for _, a := range arrivals {
+			if a.seq > tailMark.start && a.seq < tailMark.end {
+				tail = append(tail, a.pk)
+			}
+		}
+		want := peer.Language(0, c01TailCmd)
+		switch {
+		case len(tail) != 2:
+			v.Violate("teardown", "teardown and following message", "closing the logical channel and sending one message on channel 0 put %d packets on the wire, expected the teardown and one packet of the message", len(tail))
+		case tail[0].H.Type != peer.BufClose || tail[0].H.Channel != chanID || tail[0].H.Status&peer.BufstatEOM == 0:
+			v.Violate("teardown", "teardown packet malformed", "the teardown of channel %d went out as %s", chanID, tail[0].H)
+		case tail[1].H.Channel != 0 || tail[1].H.Status&peer.BufstatEOM == 0 || !bytes.Equal(tail[1].Body, want):
+			v.Violate("teardown", "message behind the teardown damaged", "the message sent on channel 0 after the teardown arrived as %s with %d body bytes (expected %d)", tail[1].H, len(tail[1].Body), len(want))
+		}
+		v.Probe("logical-channel-torn-down-then-message")
+	}
 	// nothing may arrive outside the messages
 	if v.Class == "" {
 		for _, a := range arrivals {
-			inside := false
+			inside := a.seq > tailMark.start && tailMark.end > 0 && a.seq < tailMark.end
 			for _, mk := range marks {
 				if a.seq > mk.start && a.seq < mk.end {
 					inside = true
